@@ -57,8 +57,24 @@ def hermetic_reset (rv):
         except Exception: pass
 
 
+class Owner (object):
+  """Owner of one handler identity: all its methods report to the world as that identity."""
+  def h (self, event, *a, **kw):
+    return self.world.invoked(self.hid, event)
+  # the names the by-name / inferred-name / auto-binding forms of subscription look for
+  # (separate functions: add_listener() reads handler.__name__, removeListener(handler) compares methods)
+  def _handle_E1 (self, event, *a, **kw):
+    return self.world.invoked(self.hid, event)
+  def _handle_E2 (self, event, *a, **kw):
+    return self.world.invoked(self.hid, event)
+  def _handle_px_E1 (self, event, *a, **kw):
+    return self.world.invoked(self.hid, event)
+  def _handle_E3 (self, event, *a, **kw):
+    return self.world.invoked(self.hid, event)
+
+
 class Sub (object):
-  __slots__ = ("sid", "hid", "etype", "prio", "once", "weak", "token", "alive", "spent")
+  __slots__ = ("sid", "hid", "etype", "prio", "once", "weak", "token", "alive", "spent", "meth", "gone")
   def __init__ (self, **kw):
     for k, v in kw.items(): setattr(self, k, v)
 
@@ -74,7 +90,7 @@ class Delivery (object):
 
 class World (object):
   """Fresh real source + handlers + reference model for one execution."""
-  def __init__ (self, rv, ctx, rep):
+  def __init__ (self, rv, ctx, rep, two=False):
     self.rv = rv; self.ctx = ctx; self.rep = rep
     hermetic_reset(rv)
     class E1 (rv.Event): pass
@@ -86,10 +102,12 @@ class World (object):
     self.src = Source()
     # a neighbouring source: shares the event class E1 with the first one and declares a DIFFERENT class that is
     # also called "E2" (pox has such pairs); whatever happens on it must not show on the first source, and vice versa
-    E2b = type("E2", (rv.Event,), {})
-    class SourceB (rv.EventMixin):
-      _eventMixin_events = set([E1, E2b])
-    self.B = SourceB(); self.EB = {"E1": E1, "E2": E2b}
+    # (only built for the two-source family)
+    if two:
+      E2b = type("E2", (rv.Event,), {})
+      class SourceB (rv.EventMixin):
+        _eventMixin_events = set([E1, E2b])
+      self.B = SourceB(); self.EB = {"E1": E1, "E2": E2b}
     self.bsub = {}            # etype -> token of B's one handler for it
     self.b_raising = None; self.b_got = []
     self.owners = {}          # hid -> owner object (strong ref held by the harness)
@@ -100,17 +118,15 @@ class World (object):
     self.next_fresh = NH
     self.violated = None
     self.ninv = 0
-    self.two = False
+    self.two = two
+    self.forms = False        # third family: the full product of subscription options x API forms
+    self.frozen = False
 
   # ----- handlers -----------------------------------------------------------
   def owner (self, hid):
     o = self.owners.get(hid)
     if o is None:
-      world = self
-      class Owner (object):
-        def h (self_, event, *a, **kw):
-          return world.invoked(hid, event)
-      o = Owner(); o.hid = hid
+      o = Owner(); o.hid = hid; o.world = self
       self.owners[hid] = o
     return o
 
@@ -146,6 +162,9 @@ class World (object):
       want = [etype] if etype in self.bsub else []
       if self.b_got != want:
         self.fail("neighbour-source-delivery", "the neighbouring source raised %s: its handler ran %d time(s), expected %d" % (etype, len(self.b_got), len(want)))
+    n = B._eventMixin_get_listener_count()
+    if n != len(self.bsub):
+      self.fail("neighbour-listener-count", "after %s %s on the neighbouring source it counts %d listener(s), %d are subscribed" % (what, etype, n, len(self.bsub)))
 
   def fail (self, clause, what):
     if self.violated is None:
@@ -160,7 +179,7 @@ class World (object):
       if not any(s.alive and s.hid == hid and not s.weak for s in self.subs):
         for s in self.subs:
           if s.alive and s.hid == hid and s.weak:
-            s.alive = False
+            s.alive = False; s.gone = True
             for d in self.stack: d.events.append(("rm", s.hid))
 
   def alive_subs (self, etype):
@@ -192,6 +211,9 @@ class World (object):
           s.alive = False
 
   def behave (self, d, hid):
+    if self.frozen:           # teardown probes: every handler just returns None (no choice point)
+      self.hist.append("  h%d invoked -> none" % hid)
+      return None
     b = self.ctx.choose(len(BEH), "beh@h%d" % hid)
     name = BEH[b]
     if b: self.feats.add("beh." + name)
@@ -219,7 +241,8 @@ class World (object):
         if ids and ids[0] != hid: tgt = ids[0]
       if tgt is not None:
         if any(s.alive and s.weak and s.hid == tgt for s in self.subs): self.feats.add("unsub.handler.weak")
-        self.do_unsub_handler(tgt, during=d)
+        meth = [s.meth for s in d.snapshot if s.hid == tgt][0]
+        self.do_unsub_handler(tgt, during=d, meth=meth)
       return None
     if name == "re-unsub-first-token":
       # unsubscribe the first handler of this delivery (already run, or myself) by its token
@@ -285,31 +308,87 @@ class World (object):
           self.fail("skipped", "handler %d was subscribed when %s was raised but never invoked" % (s.hid, d.etype))
 
   # ----- operations ---------------------------------------------------------
-  def do_sub (self, hid, etype, prio, mode, during=None):
+  def do_sub (self, hid, etype, prio, mode, during=None, form=None, once=False, weak=False):
+    """mode: the four legacy spellings (first two families: addListener / addListenerByName on the method 'h').
+    form (third family): which API makes the subscription, on the method named after the event."""
     o = self.owner(hid)
     et = self.E[etype]
+    if form is None:
+      form = "byname" if mode == "byname" else "class"
+      once = (mode == "once"); weak = (mode == "weak")
+      meth = "h"
+    else:
+      meth = "_handle_px_E1" if form == "bind-px" else "_handle_" + etype
+    h = getattr(o, meth)
     kw = {}
     if prio: kw["priority"] = prio
-    if mode == "once": kw["once"] = True
-    if mode == "weak": kw["weak"] = True
+    if once: kw["once"] = True
+    if weak: kw["weak"] = True
+    names = [etype]
+    src = self.src
     try:
-      if mode == "byname":
-        tok = self.src.addListenerByName(etype, o.h, **kw)
-      else:
-        tok = self.src.addListener(et, o.h, **kw)
+      if form == "class": toks = [src.addListener(et, h, **kw)]
+      elif form == "byname": toks = [src.addListenerByName(etype, h, **kw)]
+      elif form == "al-type": toks = [src.add_listener(h, event_type=et, **kw)]
+      elif form == "al-name": toks = [src.add_listener(h, event_name=etype, **kw)]
+      elif form == "al-infer": toks = [src.add_listener(h, **kw)]          # name taken from '_handle_<Event>'
+      elif form == "bind":                                                   # every _handle_<Event> method of the owner
+        names = ["E1", "E2"]
+        toks = src.addListeners(o, **kw)
+      elif form == "bind-px":                                                # every _handle_px_<Event> method
+        toks = self.rv.autoBindEvents(o, src, "px", bool(weak), prio)
     except self.rv.ReventError:
       if etype == "E3": return "rejected"
       self.fail("subscribe-rejected", "subscribing to declared event %s was rejected" % etype)
     if etype == "E3":
       self.fail("undeclared-accepted", "subscribing to an undeclared event type was accepted")
-    if not (isinstance(tok, tuple) and len(tok) == 2 and tok[0] is et):
-      self.fail("bad-token", "addListener returned %r" % (tok,))
-    s = Sub(sid=len(self.subs), hid=hid, etype=etype, prio=prio, once=(mode == "once"),
-            weak=(mode == "weak"), token=tok, alive=True, spent=None)
-    self.subs.append(s)
-    for d in self.stack:
-      if d.etype == etype: d.events.append(("add", hid))
+    ok = isinstance(toks, list) and len(toks) == len(names) and all(isinstance(t, tuple) and len(t) == 2 for t in toks)
+    if ok:
+      toks = sorted(toks, key=lambda t: getattr(t[0], "__name__", ""))     # (order of returned ids: not constrained)
+      ok = all(t[0] is self.E[n] for t, n in zip(toks, names))
+    if not ok:
+      self.fail("bad-token", "%s returned %r" % ("addListener" if form in ("class", "byname") else form, toks[0] if len(names) == 1 and isinstance(toks, list) and len(toks) == 1 else toks))
+    s = None
+    for tok, name in zip(toks, names):
+      s = Sub(sid=len(self.subs), hid=hid, etype=name, prio=prio, once=bool(once),
+              weak=bool(weak), token=tok, alive=True, spent=None, gone=False,
+              meth=("_handle_" + name if form == "bind" else meth))
+      self.subs.append(s)
+      for d in self.stack:
+        if d.etype == name: d.events.append(("add", hid))
     return s
+
+  def check_count (self, when):
+    """Read-back of the source's listener count between top-level operations: it counts exactly the live
+    subscriptions (in particular: a weak subscription whose owner is gone is not there any more)."""
+    if self.stack: return
+    want = 0; weak = False
+    for s in self.subs:
+      if s.alive:
+        want += 1
+        if s.weak: weak = True
+    if weak:
+      self.reap()
+      want = sum(1 for s in self.subs if s.alive)
+    got = self.src._eventMixin_get_listener_count()
+    if got == want: return
+    if got > want and self.stale_are_ownerless():
+      self.fail("weak-outlives-owner", "%s the source counts %d listener(s), %d are subscribed: the weak subscription of a "
+                "handler whose owner is gone is still there" % (when, got, want))
+    self.fail("listener-count-high" if got > want else "listener-count-low",
+              "%s the source counts %d listener(s), %d are subscribed" % (when, got, want))
+
+  def stale_are_ownerless (self):
+    """Only to NAME a surplus in the listener count (it does not decide whether there is one): are the entries the
+    source still holds for subscriptions that are over all weak subscriptions whose owner went away?"""
+    gone = [s for s in self.subs if s.gone]
+    if not gone: return False
+    try:
+      held = set(e[3] for lst in self.src._eventMixin_handlers.values() for e in lst)
+      stale = [s for s in self.subs if not s.alive and s.token[1] in held]
+    except Exception:
+      return True               # cannot look inside: go by the model alone
+    return bool(stale) and all(s.gone for s in stale)
 
   def model_remove (self, pred, during):
     n = 0
@@ -320,11 +399,11 @@ class World (object):
           d.events.append(("rm", s.hid))
     return n
 
-  def do_unsub_handler (self, hid, etype=None, during=None):
-    o = self.owner(hid)
-    if etype is None: r = self.src.removeListener(o.h)
-    else: r = self.src.removeListener(o.h, self.E[etype])
-    n = self.model_remove(lambda s: s.hid == hid and (etype is None or s.etype == etype), during)
+  def do_unsub_handler (self, hid, etype=None, during=None, meth="h"):
+    h = getattr(self.owner(hid), meth)
+    if etype is None: r = self.src.removeListener(h)
+    else: r = self.src.removeListener(h, self.E[etype])
+    n = self.model_remove(lambda s: s.hid == hid and s.meth == meth and (etype is None or s.etype == etype), during)
     return r, n
 
   def do_unsub_token (self, s, form):
@@ -332,6 +411,7 @@ class World (object):
     if form == "eid": r = self.src.removeListener(eid)
     elif form == "tuple": r = self.src.removeListener((et, eid))
     elif form == "eid+type": r = self.src.removeListener(eid, et)
+    elif form == "list": r = self.src.removeListeners([s.token])        # the plural form, given a list of ids
     n = self.model_remove(lambda x: x is s, None)
     return r, n
 
@@ -381,6 +461,8 @@ class World (object):
     # a weak subscription dies with its owner; a strong one keeps the owner alive
     strong = any(s.alive and s.hid == hid and not s.weak for s in self.subs)
     if not strong:
+      for s in self.subs:
+        if s.alive and s.hid == hid and s.weak: s.gone = True
       self.model_remove(lambda s: s.hid == hid and s.weak, None)
 
 
@@ -409,8 +491,53 @@ def ops_two (w):
   return ops
 
 
+FORMS1 = ("class", "byname", "al-type", "al-name", "al-infer")     # forms that make one subscription
+NF = 2            # handler identities of the third family
+
+
+def ops_forms (w, thorough):
+  """Third family: the first handler identity subscribes to E1 through every API form x once x weak x priority{0,1}
+  (auto-binding: x weak x priority; it binds E1 and E2 at once, or E1 alone with a method prefix); the second identity
+  through {class, by-name} x weak x priority{0,1} and auto-binding (thorough: the full product as well)."""
+  ops = []
+  used = set(s.hid for s in w.subs)
+  nxt = min([h for h in range(NF) if h not in used] or [NF])
+  for hid in range(min(nxt + 1, NF)):
+    if hid not in w.owners and hid in used: continue       # owner dropped
+    busy = lambda et: any(s.alive and s.hid == hid and s.etype == et for s in w.subs)
+    full = (hid == 0) or thorough
+    if not busy("E1"):
+      for form in (FORMS1 if full else ("class", "byname")):
+        for weak in (0, 1):
+          for once in ((0, 1) if full else (0,)):
+            for prio in (0, 1):
+              ops.append(("sub3", hid, "E1", prio, once, weak, form))
+      for weak in (0, 1):
+        for prio in (0, 1):
+          if full: ops.append(("sub3", hid, "E1", prio, 0, weak, "bind-px"))
+          if not busy("E2"): ops.append(("sub3", hid, "E1", prio, 0, weak, "bind"))
+  for hid in sorted(used):
+    if hid in w.owners:
+      for meth in sorted(set(s.meth for s in w.subs if s.hid == hid)):
+        ops.append(("unsub-handler3", hid, meth))
+  for j, s in enumerate(w.subs[:2]):
+    for form in ("eid", "tuple", "list"):
+      ops.append(("unsub-token", j, form))
+  ops.append(("raise", "E1", "inst"))
+  ops.append(("raise", "E1", "class"))
+  ops.append(("raise", "E2", "inst"))
+  for form in ("byname", "al-type", "al-name", "al-infer"):
+    ops.append(("sub3", NF - 1, "E3", 0, 0, 0, form))
+  ops.append(("sub3", NF - 1, "E3", 0, 0, 1, "byname"))
+  for hid in sorted(used):
+    if hid in w.owners and any(s.weak for s in w.subs if s.hid == hid):
+      ops.append(("drop", hid))
+  return ops
+
+
 def ops_alphabet (w, thorough):
   if w.two: return ops_two(w)
+  if w.forms: return ops_forms(w, thorough)
   """Enabled top-level operations in the current state (symmetry: handler identities are
   interchangeable, so a fresh identity is only introduced in index order)."""
   ops = []
@@ -459,6 +586,25 @@ def apply_op (w, op):
     if prio < 0: w.feats.add("sub.prio-1")
     if et == "E3": w.feats.add("E3")
     w.do_sub(hid, et, prio, mode)
+  elif k == "sub3":
+    _, hid, et, prio, once, weak, form = op
+    if form != "class": w.feats.add("sub." + form)
+    if once: w.feats.add("sub.once")
+    if weak: w.feats.add("sub.weak")
+    if prio > 0: w.feats.add("sub.prio1")
+    if et == "E3": w.feats.add("E3")
+    try:
+      w.do_sub(hid, et, prio, None, form=form, once=once, weak=weak)
+    except Stop: raise
+    except Exception as e:
+      w.fail("internal-error", "subscribing (%s form) failed inside the library: %s: %s" % (form, type(e).__name__, e))
+  elif k == "unsub-handler3":
+    if any(s.alive and s.weak and s.hid == op[1] and s.meth == op[2] for s in w.subs): w.feats.add("unsub.handler.weak")
+    try:
+      w.do_unsub_handler(op[1], meth=op[2])
+    except Stop: raise
+    except Exception as e:
+      w.fail("internal-error", "removeListener(handler) failed inside the library: %s: %s" % (type(e).__name__, e))
   elif k == "unsub-handler":
     if op[2]: w.feats.add("unsub.handler+type")
     if any(s.alive and s.weak and s.hid == op[1] for s in w.subs): w.feats.add("unsub.handler.weak")
@@ -500,10 +646,10 @@ def apply_op (w, op):
       w.fail("internal-error", "operation %r on the neighbouring source failed inside the library: %s: %s" % (op[1:], type(e).__name__, e))
 
 
-def make_run (rv, rep, depth, thorough, two=False):
+def make_run (rv, rep, depth, thorough, two=False, forms=False):
   def run (ctx):
-    w = World(rv, ctx, rep)
-    w.two = two
+    w = World(rv, ctx, rep, two)
+    w.forms = forms
     try:
       for step in range(depth):
         ops = ops_alphabet(w, thorough)
@@ -513,6 +659,7 @@ def make_run (rv, rep, depth, thorough, two=False):
         w.hist.append(repr(op))
         apply_op(w, op)
         rep.transitions += 1
+        w.check_count("after %s" % (op[0],))
     except Stop:
       pass
     finally:
@@ -523,6 +670,24 @@ def make_run (rv, rep, depth, thorough, two=False):
       try:
         w.hist.append("(final probe raise E1)")
         w.do_raise("E1", "inst")
+        w.check_count("after the final probe raise")
+        if forms:
+          w.frozen = True
+          w.hist.append("(final probe raise E2)")
+          w.do_raise("E2", "inst")
+          w.check_count("after the final probe raise")
+        # teardown: every owner of a weakly subscribed handler goes away; those subscriptions must be gone
+        # (listener count), the others must still be served by one more raise
+        doomed = [hid for hid in sorted(w.owners) if any(s.alive and s.weak and s.hid == hid for s in w.subs)]
+        if doomed:
+          w.frozen = True
+          w.feats.add("drop")
+          w.hist.append("(teardown: drop the owners of handlers %s; raise E1%s)" % (doomed, ", E2" if forms else ""))
+          for hid in doomed: w.do_drop(hid)
+          w.check_count("after the owners of all weakly subscribed handlers went away")
+          w.do_raise("E1", "inst")
+          if forms: w.do_raise("E2", "inst")
+          w.check_count("after the owners of all weakly subscribed handlers went away and a raise")
       except Stop:
         pass
     return w
@@ -545,17 +710,18 @@ def explains (known_key, key):
 
 
 def _worker (args):
-  first_ops, depth, dev, thorough, two = args
+  first_ops, depth, dev, thorough, fam = args
+  two = (fam == 1); forms = (fam == 2)
   rv = _import()
   rep = Report(PID, "model_checking")
-  run = make_run(rv, rep, depth, thorough, two)
+  run = make_run(rv, rep, depth, thorough, two, forms)
   def on_exec (ctx, w):
     rep.evaluations += 1
     rep.outcome((tuple(w.hist[-6:]), w.violated and w.violated[0]))
     if w.violated:
       clause, what = w.violated
       rep.violation(key_of(clause, w.feats), what,
-                    dict(choices=ctx.choices(), depth=depth, two=two, history=w.hist))
+                    dict(choices=ctx.choices(), depth=depth, two=two, forms=forms, thorough=thorough, history=w.hist))
     elif rep.evaluations % 50000 == 1:
       rep.sample(dict(history=w.hist))
   old = sys.stderr; sys.stderr = io.StringIO()
@@ -592,22 +758,40 @@ def run (cfg):
               "type, drop weak owner) on a real EventMixin with up to %d handler identities (symmetry-reduced), every "
               "handler invocation choosing among %d behaviours with <=%d non-default ones per history; a final probe "
               "raise after every history. Second family: two sources side by side (a shared event class and two different classes "
-              "of the same name): reduced alphabet on the first plus subscribe / by-name subscribe / subscribe-and-unsubscribe / unsubscribe / raise on the neighbour, depth 4 (thorough 5). distinct = distinct (history tail, verdict) digests"
-              % (depth, NH, len(BEH), dev))
+              "of the same name): reduced alphabet on the first plus subscribe / by-name subscribe / subscribe-and-unsubscribe / unsubscribe / raise on the neighbour, depth 4 (thorough 5). "
+              "Third family (subscription API forms): the first of %d handler identities subscribes through every form {addListener, addListenerByName, add_listener(event_type=), "
+              "add_listener(event_name=), add_listener() with the name inferred from _handle_<Event>} x once{0,1} x weak{0,1} x priority{0,1}, or through auto-binding "
+              "{addListeners(owner) binding _handle_E1 and _handle_E2 at once, autoBindEvents with a method prefix} x weak x priority; the second identity through {class, by-name} x weak x priority "
+              "and auto-binding; by-name / inferred / event_type= subscription of the undeclared type; unsubscribe by handler method, eid, (type,eid) and "
+              "removeListeners([id]); raise E1 instance/class form, raise E2; drop owner; depth 3 with default behaviours and depth 2 with <=2 non-default ones (thorough: the same with the full product for the second identity, plus depth 3 with <=1 and depth 4 with 0 non-default behaviours). "
+              "In all families the source's listener count is read back after every top-level operation and compared with the number of live subscriptions of the model, and every history "
+              "ends with a teardown: all owners of weakly subscribed handlers are dropped, the count is read back, the event(s) raised once more and the count read back again. "
+              "distinct = distinct (history tail, verdict) digests"
+              % (depth, NH, len(BEH), dev, NF))
   rep.bound = dict(plans=[dict(depth=d, deviations=v) for d, v in plans], handlers=NH)
   rep.assumptions = ["handler identities are interchangeable (symmetry reduction)",
                      "ReventError raised by a handler is outside the alphabet",
-                     "whether a handler added during a delivery takes part in it, and whether a handler removed by another before its turn still runs, is unconstrained"]
+                     "whether a handler added during a delivery takes part in it, and whether a handler removed by another before its turn still runs, is unconstrained",
+                     "the listener count is read through EventMixin._eventMixin_get_listener_count() between top-level operations only (never inside a delivery)",
+                     "handlers behave by default (return None) during the teardown raises and the third family's E2 probe (no choice points there)",
+                     "the order of the ids returned by auto-binding and the return values of removeListener(s) are not judged"]
   # partition on the first operation
   w0 = World(rv, Ctx([]), rep)
   n0 = len(ops_alphabet(w0, not cfg.quick)) + 1
-  items = [([f], d, v, not cfg.quick, False) for (d, v) in plans for f in range(n0)]
+  items = [([f], d, v, not cfg.quick, 0) for (d, v) in plans for f in range(n0)]
   # two sources side by side (reduced alphabet on the first one)
   w0.two = True
   n2 = len(ops_alphabet(w0, False)) + 1
   plans2 = cfg.pick([(4, 0), (3, 1)], [(5, 1), (4, 2)])
-  items += [([f], d, v, not cfg.quick, True) for (d, v) in plans2 for f in range(n2)]
+  items += [([f], d, v, not cfg.quick, 1) for (d, v) in plans2 for f in range(n2)]
   rep.bound["two_source_plans"] = [dict(depth=d, deviations=v) for d, v in plans2]
+  # subscription API forms x options (third family)
+  w0.two = False; w0.forms = True
+  n3 = len(ops_alphabet(w0, False)) + 1          # (the first operation is the same with and without 'full')
+  # (depth, deviations, full): full = the second identity also goes through the whole product of forms and options
+  plans3 = cfg.pick([(3, 0, False), (2, 2, False)], [(3, 0, True), (2, 2, True), (3, 1, False), (4, 0, False)])
+  items += [([f], d, v, full, 2) for (d, v, full) in plans3 for f in range(n3)]
+  rep.bound["api_form_plans"] = [dict(depth=d, deviations=v, handlers=NF, second_identity_full_product=full) for d, v, full in plans3]
   for r in pmap(_worker, items, cfg.workers, seed=cfg.seed):
     rep.merge(r)
   rep.state_count = rep.evaluations
@@ -618,7 +802,7 @@ def run (cfg):
 def replay (cfg, data):
   rv = _import()
   rep = Report(PID, "model_checking")
-  runf = make_run(rv, rep, data["depth"], not cfg.quick, data.get("two", False))
+  runf = make_run(rv, rep, data["depth"], data.get("thorough", not cfg.quick), data.get("two", False), data.get("forms", False))
   ctx = Ctx(list(data["choices"]))
   w = runf(ctx)
   text = "\n".join(w.hist) + "\n=> %r" % (w.violated,)
